@@ -9,56 +9,118 @@ import (
 	"simshim/simrt"
 )
 
+//go:norace
 func y() { simrt.Yield(simrt.SiteAtomic) }
 
-func AddInt32(p *int32, d int32) int32         { y(); return atomic.AddInt32(p, d) }
-func AddInt64(p *int64, d int64) int64         { y(); return atomic.AddInt64(p, d) }
-func AddUint32(p *uint32, d uint32) uint32     { y(); return atomic.AddUint32(p, d) }
-func AddUint64(p *uint64, d uint64) uint64     { y(); return atomic.AddUint64(p, d) }
-func AddUintptr(p *uintptr, d uintptr) uintptr { y(); return atomic.AddUintptr(p, d) }
-func AndInt32(p *int32, m int32) int32         { y(); return atomic.AndInt32(p, m) }
-func AndUint32(p *uint32, m uint32) uint32     { y(); return atomic.AndUint32(p, m) }
-func OrInt32(p *int32, m int32) int32          { y(); return atomic.OrInt32(p, m) }
-func OrUint32(p *uint32, m uint32) uint32      { y(); return atomic.OrUint32(p, m) }
+//go:norace
+func AddInt32(p *int32, d int32) int32 { y(); return atomic.AddInt32(p, d) }
 
-func LoadInt32(p *int32) int32                     { y(); return atomic.LoadInt32(p) }
-func LoadInt64(p *int64) int64                     { y(); return atomic.LoadInt64(p) }
-func LoadUint32(p *uint32) uint32                  { y(); return atomic.LoadUint32(p) }
-func LoadUint64(p *uint64) uint64                  { y(); return atomic.LoadUint64(p) }
-func LoadUintptr(p *uintptr) uintptr               { y(); return atomic.LoadUintptr(p) }
+//go:norace
+func AddInt64(p *int64, d int64) int64 { y(); return atomic.AddInt64(p, d) }
+
+//go:norace
+func AddUint32(p *uint32, d uint32) uint32 { y(); return atomic.AddUint32(p, d) }
+
+//go:norace
+func AddUint64(p *uint64, d uint64) uint64 { y(); return atomic.AddUint64(p, d) }
+
+//go:norace
+func AddUintptr(p *uintptr, d uintptr) uintptr { y(); return atomic.AddUintptr(p, d) }
+
+//go:norace
+func AndInt32(p *int32, m int32) int32 { y(); return atomic.AndInt32(p, m) }
+
+//go:norace
+func AndUint32(p *uint32, m uint32) uint32 { y(); return atomic.AndUint32(p, m) }
+
+//go:norace
+func OrInt32(p *int32, m int32) int32 { y(); return atomic.OrInt32(p, m) }
+
+//go:norace
+func OrUint32(p *uint32, m uint32) uint32 { y(); return atomic.OrUint32(p, m) }
+
+//go:norace
+func LoadInt32(p *int32) int32 { y(); return atomic.LoadInt32(p) }
+
+//go:norace
+func LoadInt64(p *int64) int64 { y(); return atomic.LoadInt64(p) }
+
+//go:norace
+func LoadUint32(p *uint32) uint32 { y(); return atomic.LoadUint32(p) }
+
+//go:norace
+func LoadUint64(p *uint64) uint64 { y(); return atomic.LoadUint64(p) }
+
+//go:norace
+func LoadUintptr(p *uintptr) uintptr { y(); return atomic.LoadUintptr(p) }
+
+//go:norace
 func LoadPointer(p *unsafe.Pointer) unsafe.Pointer { y(); return atomic.LoadPointer(p) }
 
-func StoreInt32(p *int32, v int32)                     { y(); atomic.StoreInt32(p, v) }
-func StoreInt64(p *int64, v int64)                     { y(); atomic.StoreInt64(p, v) }
-func StoreUint32(p *uint32, v uint32)                  { y(); atomic.StoreUint32(p, v) }
-func StoreUint64(p *uint64, v uint64)                  { y(); atomic.StoreUint64(p, v) }
-func StoreUintptr(p *uintptr, v uintptr)               { y(); atomic.StoreUintptr(p, v) }
+//go:norace
+func StoreInt32(p *int32, v int32) { y(); atomic.StoreInt32(p, v) }
+
+//go:norace
+func StoreInt64(p *int64, v int64) { y(); atomic.StoreInt64(p, v) }
+
+//go:norace
+func StoreUint32(p *uint32, v uint32) { y(); atomic.StoreUint32(p, v) }
+
+//go:norace
+func StoreUint64(p *uint64, v uint64) { y(); atomic.StoreUint64(p, v) }
+
+//go:norace
+func StoreUintptr(p *uintptr, v uintptr) { y(); atomic.StoreUintptr(p, v) }
+
+//go:norace
 func StorePointer(p *unsafe.Pointer, v unsafe.Pointer) { y(); atomic.StorePointer(p, v) }
 
-func SwapInt32(p *int32, v int32) int32         { y(); return atomic.SwapInt32(p, v) }
-func SwapInt64(p *int64, v int64) int64         { y(); return atomic.SwapInt64(p, v) }
-func SwapUint32(p *uint32, v uint32) uint32     { y(); return atomic.SwapUint32(p, v) }
-func SwapUint64(p *uint64, v uint64) uint64     { y(); return atomic.SwapUint64(p, v) }
+//go:norace
+func SwapInt32(p *int32, v int32) int32 { y(); return atomic.SwapInt32(p, v) }
+
+//go:norace
+func SwapInt64(p *int64, v int64) int64 { y(); return atomic.SwapInt64(p, v) }
+
+//go:norace
+func SwapUint32(p *uint32, v uint32) uint32 { y(); return atomic.SwapUint32(p, v) }
+
+//go:norace
+func SwapUint64(p *uint64, v uint64) uint64 { y(); return atomic.SwapUint64(p, v) }
+
+//go:norace
 func SwapUintptr(p *uintptr, v uintptr) uintptr { y(); return atomic.SwapUintptr(p, v) }
+
+//go:norace
 func SwapPointer(p *unsafe.Pointer, v unsafe.Pointer) unsafe.Pointer {
 	y()
 	return atomic.SwapPointer(p, v)
 }
 
+//go:norace
 func CompareAndSwapInt32(p *int32, o, n int32) bool { y(); return atomic.CompareAndSwapInt32(p, o, n) }
+
+//go:norace
 func CompareAndSwapInt64(p *int64, o, n int64) bool { y(); return atomic.CompareAndSwapInt64(p, o, n) }
+
+//go:norace
 func CompareAndSwapUint32(p *uint32, o, n uint32) bool {
 	y()
 	return atomic.CompareAndSwapUint32(p, o, n)
 }
+
+//go:norace
 func CompareAndSwapUint64(p *uint64, o, n uint64) bool {
 	y()
 	return atomic.CompareAndSwapUint64(p, o, n)
 }
+
+//go:norace
 func CompareAndSwapUintptr(p *uintptr, o, n uintptr) bool {
 	y()
 	return atomic.CompareAndSwapUintptr(p, o, n)
 }
+
+//go:norace
 func CompareAndSwapPointer(p *unsafe.Pointer, o, n unsafe.Pointer) bool {
 	y()
 	return atomic.CompareAndSwapPointer(p, o, n)
@@ -66,69 +128,151 @@ func CompareAndSwapPointer(p *unsafe.Pointer, o, n unsafe.Pointer) bool {
 
 type Int32 struct{ v atomic.Int32 }
 
-func (x *Int32) Load() int32                    { y(); return x.v.Load() }
-func (x *Int32) Store(v int32)                  { y(); x.v.Store(v) }
-func (x *Int32) Swap(v int32) int32             { y(); return x.v.Swap(v) }
-func (x *Int32) Add(d int32) int32              { y(); return x.v.Add(d) }
-func (x *Int32) And(m int32) int32              { y(); return x.v.And(m) }
-func (x *Int32) Or(m int32) int32               { y(); return x.v.Or(m) }
+//go:norace
+func (x *Int32) Load() int32 { y(); return x.v.Load() }
+
+//go:norace
+func (x *Int32) Store(v int32) { y(); x.v.Store(v) }
+
+//go:norace
+func (x *Int32) Swap(v int32) int32 { y(); return x.v.Swap(v) }
+
+//go:norace
+func (x *Int32) Add(d int32) int32 { y(); return x.v.Add(d) }
+
+//go:norace
+func (x *Int32) And(m int32) int32 { y(); return x.v.And(m) }
+
+//go:norace
+func (x *Int32) Or(m int32) int32 { y(); return x.v.Or(m) }
+
+//go:norace
 func (x *Int32) CompareAndSwap(o, n int32) bool { y(); return x.v.CompareAndSwap(o, n) }
 
 type Int64 struct{ v atomic.Int64 }
 
-func (x *Int64) Load() int64                    { y(); return x.v.Load() }
-func (x *Int64) Store(v int64)                  { y(); x.v.Store(v) }
-func (x *Int64) Swap(v int64) int64             { y(); return x.v.Swap(v) }
-func (x *Int64) Add(d int64) int64              { y(); return x.v.Add(d) }
-func (x *Int64) And(m int64) int64              { y(); return x.v.And(m) }
-func (x *Int64) Or(m int64) int64               { y(); return x.v.Or(m) }
+//go:norace
+func (x *Int64) Load() int64 { y(); return x.v.Load() }
+
+//go:norace
+func (x *Int64) Store(v int64) { y(); x.v.Store(v) }
+
+//go:norace
+func (x *Int64) Swap(v int64) int64 { y(); return x.v.Swap(v) }
+
+//go:norace
+func (x *Int64) Add(d int64) int64 { y(); return x.v.Add(d) }
+
+//go:norace
+func (x *Int64) And(m int64) int64 { y(); return x.v.And(m) }
+
+//go:norace
+func (x *Int64) Or(m int64) int64 { y(); return x.v.Or(m) }
+
+//go:norace
 func (x *Int64) CompareAndSwap(o, n int64) bool { y(); return x.v.CompareAndSwap(o, n) }
 
 type Uint32 struct{ v atomic.Uint32 }
 
-func (x *Uint32) Load() uint32                    { y(); return x.v.Load() }
-func (x *Uint32) Store(v uint32)                  { y(); x.v.Store(v) }
-func (x *Uint32) Swap(v uint32) uint32            { y(); return x.v.Swap(v) }
-func (x *Uint32) Add(d uint32) uint32             { y(); return x.v.Add(d) }
-func (x *Uint32) And(m uint32) uint32             { y(); return x.v.And(m) }
-func (x *Uint32) Or(m uint32) uint32              { y(); return x.v.Or(m) }
+//go:norace
+func (x *Uint32) Load() uint32 { y(); return x.v.Load() }
+
+//go:norace
+func (x *Uint32) Store(v uint32) { y(); x.v.Store(v) }
+
+//go:norace
+func (x *Uint32) Swap(v uint32) uint32 { y(); return x.v.Swap(v) }
+
+//go:norace
+func (x *Uint32) Add(d uint32) uint32 { y(); return x.v.Add(d) }
+
+//go:norace
+func (x *Uint32) And(m uint32) uint32 { y(); return x.v.And(m) }
+
+//go:norace
+func (x *Uint32) Or(m uint32) uint32 { y(); return x.v.Or(m) }
+
+//go:norace
 func (x *Uint32) CompareAndSwap(o, n uint32) bool { y(); return x.v.CompareAndSwap(o, n) }
 
 type Uint64 struct{ v atomic.Uint64 }
 
-func (x *Uint64) Load() uint64                    { y(); return x.v.Load() }
-func (x *Uint64) Store(v uint64)                  { y(); x.v.Store(v) }
-func (x *Uint64) Swap(v uint64) uint64            { y(); return x.v.Swap(v) }
-func (x *Uint64) Add(d uint64) uint64             { y(); return x.v.Add(d) }
-func (x *Uint64) And(m uint64) uint64             { y(); return x.v.And(m) }
-func (x *Uint64) Or(m uint64) uint64              { y(); return x.v.Or(m) }
+//go:norace
+func (x *Uint64) Load() uint64 { y(); return x.v.Load() }
+
+//go:norace
+func (x *Uint64) Store(v uint64) { y(); x.v.Store(v) }
+
+//go:norace
+func (x *Uint64) Swap(v uint64) uint64 { y(); return x.v.Swap(v) }
+
+//go:norace
+func (x *Uint64) Add(d uint64) uint64 { y(); return x.v.Add(d) }
+
+//go:norace
+func (x *Uint64) And(m uint64) uint64 { y(); return x.v.And(m) }
+
+//go:norace
+func (x *Uint64) Or(m uint64) uint64 { y(); return x.v.Or(m) }
+
+//go:norace
 func (x *Uint64) CompareAndSwap(o, n uint64) bool { y(); return x.v.CompareAndSwap(o, n) }
 
 type Uintptr struct{ v atomic.Uintptr }
 
-func (x *Uintptr) Load() uintptr                    { y(); return x.v.Load() }
-func (x *Uintptr) Store(v uintptr)                  { y(); x.v.Store(v) }
-func (x *Uintptr) Swap(v uintptr) uintptr           { y(); return x.v.Swap(v) }
-func (x *Uintptr) Add(d uintptr) uintptr            { y(); return x.v.Add(d) }
+//go:norace
+func (x *Uintptr) Load() uintptr { y(); return x.v.Load() }
+
+//go:norace
+func (x *Uintptr) Store(v uintptr) { y(); x.v.Store(v) }
+
+//go:norace
+func (x *Uintptr) Swap(v uintptr) uintptr { y(); return x.v.Swap(v) }
+
+//go:norace
+func (x *Uintptr) Add(d uintptr) uintptr { y(); return x.v.Add(d) }
+
+//go:norace
 func (x *Uintptr) CompareAndSwap(o, n uintptr) bool { y(); return x.v.CompareAndSwap(o, n) }
 
 type Bool struct{ v atomic.Bool }
 
-func (x *Bool) Load() bool                    { y(); return x.v.Load() }
-func (x *Bool) Store(v bool)                  { y(); x.v.Store(v) }
-func (x *Bool) Swap(v bool) bool              { y(); return x.v.Swap(v) }
+//go:norace
+func (x *Bool) Load() bool { y(); return x.v.Load() }
+
+//go:norace
+func (x *Bool) Store(v bool) { y(); x.v.Store(v) }
+
+//go:norace
+func (x *Bool) Swap(v bool) bool { y(); return x.v.Swap(v) }
+
+//go:norace
 func (x *Bool) CompareAndSwap(o, n bool) bool { y(); return x.v.CompareAndSwap(o, n) }
 
 type Pointer[T any] struct{ v atomic.Pointer[T] }
 
-func (x *Pointer[T]) Load() *T                    { y(); return x.v.Load() }
-func (x *Pointer[T]) Store(v *T)                  { y(); x.v.Store(v) }
-func (x *Pointer[T]) Swap(v *T) *T                { y(); return x.v.Swap(v) }
+//go:norace
+func (x *Pointer[T]) Load() *T { y(); return x.v.Load() }
+
+//go:norace
+func (x *Pointer[T]) Store(v *T) { y(); x.v.Store(v) }
+
+//go:norace
+func (x *Pointer[T]) Swap(v *T) *T { y(); return x.v.Swap(v) }
+
+//go:norace
 func (x *Pointer[T]) CompareAndSwap(o, n *T) bool { y(); return x.v.CompareAndSwap(o, n) }
 
 type Value struct{ v atomic.Value }
 
-func (x *Value) Load() any                    { y(); return x.v.Load() }
-func (x *Value) Store(v any)                  { y(); x.v.Store(v) }
-func (x *Value) Swap(v any) any               { y(); return x.v.Swap(v) }
+//go:norace
+func (x *Value) Load() any { y(); return x.v.Load() }
+
+//go:norace
+func (x *Value) Store(v any) { y(); x.v.Store(v) }
+
+//go:norace
+func (x *Value) Swap(v any) any { y(); return x.v.Swap(v) }
+
+//go:norace
 func (x *Value) CompareAndSwap(o, n any) bool { y(); return x.v.CompareAndSwap(o, n) }
